@@ -152,3 +152,11 @@ func (f *FaultReader) Read(p []byte) (int, error) {
 	f.Read_ += m
 	return m, err
 }
+
+// SpyDigestVerifier is a SpyVerifier that also offers the digest entry point (as the built-in
+// RSA and ECDSA verifiers do); both entry points answer alike.
+type SpyDigestVerifier struct{ SpyVerifier }
+
+func (v *SpyDigestVerifier) VerifyDigest(digest, signature []byte) error {
+	return v.Verify(digest, signature)
+}
